@@ -10,6 +10,7 @@ import itertools
 import numpy as np
 import formulas
 from formulas.tokens.operand import XlError
+import hashref
 
 P = "'[b]S'!"
 KB = __KB__               # expression index of B1, fixed per generated copy
@@ -88,14 +89,45 @@ def scalar(v):
     return np.ravel(v)[0] if isinstance(v, np.ndarray) else v
 
 
-def _book(kb, kc, kd, g1, g2):
+CELLS = ['A1', 'A2', 'B1', 'C1', 'D1', 'E1', 'F1', 'G1']
+
+
+def outcome(sol):
+    out = {}
+    for c in CELLS:
+        v = scalar(sol[P + c]) if P + c in sol else 'MISSING'
+        out[c] = str(v) if isinstance(v, (str, XlError)) else float(v)
+    return out
+
+
+def build(kb, kc, kd, g1, g2):
     exprs = {'B1': EB[kb], 'C1': EC[kc], 'D1': ED[kd]}
-    guards = {'A1': g1, 'A2': g2}
     d = {P + 'A1': g1, P + 'A2': g2, P + 'F1': 5, P + 'G1': '=%sF1*2' % P, P + 'E1': '=%sB1+10' % P}
     for c, e in exprs.items():
         d[P + c] = e[1] if e[0] == 'c' else '=' + text(e)
-    m = formulas.ExcelModel().from_dict(d).finish(circular=True)
-    sol = m.calculate()
+    return exprs, d
+
+
+def solve(d, order=0):
+    return formulas.ExcelModel().from_dict(hashref.reorder(d, order)).finish(circular=True).calculate()
+
+
+def all_outcomes():
+    return {'%d,%d,%d,%d' % (kc, kd, g1, g2): outcome(solve(build(KB, kc, kd, bool(g1), bool(g2))[1]))
+            for kc in range(4) for kd in range(4) for g1 in (0, 1) for g2 in (0, 1)}
+
+
+def _book(kb, kc, kd, g1, g2):
+    exprs, d = build(kb, kc, kd, g1, g2)
+    guards = {'A1': g1, 'A2': g2}
+    sol = solve(d)
+    # the outcome depends neither on the order the cells were added nor on the hash seed
+    base = outcome(sol)
+    if any(outcome(solve(d, order)) != base for order in (1, 2, 3)):
+        return False
+    ref = hashref.reference(__file__)
+    if ref is not None and ref['%d,%d,%d,%d' % (kc, kd, 1 if g1 else 0, 1 if g2 else 0)] != base:
+        return False
     want, cls = lazy(exprs, guards), classify(exprs, guards)
     b = want['B1']
     want['E1'] = b if isinstance(b, str) else b + 10
@@ -121,3 +153,7 @@ def book2_ok(c0: bool, c1: bool, d0: bool, d1: bool, g1: bool, g2: bool) -> bool
     post: _
     """
     return concrete(_book, KB, sel(c0, c1), sel(d0, d1), True if g1 else False, True if g2 else False)
+
+
+if hashref.child_mode(__file__):
+    hashref.emit(all_outcomes())
